@@ -27,6 +27,7 @@ import re
 import shutil
 
 from . import c10_util as U
+from . import c19_util as V
 from . import common as C
 from . import fsrec as F
 
@@ -88,6 +89,24 @@ def applicable(kind, op):
     return False
 
 
+class Classifier(U.Classifier):
+    """c10_util.Classifier, plus: a _metadata / _common_metadata file that is not a parquet
+    footer at all (a write torn after its first bytes, left behind by a run that aborted
+    there) has the model's torn content CPartial, like a torn data file"""
+
+    def __call__(self, rp, ap):
+        t = super().__call__(rp, ap)
+        if os.path.basename(rp) in ('_metadata', '_common_metadata') and t.ctor == 'COpaque':
+            import pyarrow.parquet as pq
+            data = open(ap, 'rb').read()
+            if not re.match(rb'^opaque:(\d+)$', data):
+                try:
+                    pq.read_metadata(ap)
+                except Exception:  # noqa: BLE001
+                    return C.Rec('CPartial')
+        return t
+
+
 class Setup:
     """one configuration: frame, partitioning, k, temp mode; knows how to (re)initialise the
     scratch directory and to run"""
@@ -112,12 +131,25 @@ class Setup:
             f.write(b'opaque:5')
         U.synthetic_prior(self.root, random.Random(3), 2, junk=True)
 
-    def run(self, plan=None, overwrite=True):
-        return U.run_pack(self.root, self.df, self.cuts, self.k, self.mode, 'snappy', overwrite=overwrite,
-                          plan=plan, K=self.K)
+    def run(self, plan=None, overwrite=True, variant=None, uuid_start=0):
+        """variant (JSON-able, kept in the replay): {'fs': 'refresh'} the s3fs-like filesystem,
+        {'retry': 'default'} no _retry_args, {'scheduler': 'resubmit'} a scheduler that re-submits
+        a failed task, {'filesystem': <value>, 'storage_options': {...}} instead of an instance"""
+        v = variant or {}
+        kw = {}
+        if v.get('fs') == 'refresh':
+            kw['fs_cls'] = V.RecFSRefresh
+        if v.get('scheduler') == 'resubmit':
+            kw['scheduler'] = V.resubmitting_get
+        if 'filesystem' in v:
+            kw['filesystem'] = v['filesystem']
+            kw['storage_options'] = v.get('storage_options')
+        return V.run_pack(self.root, self.df, self.cuts, self.k, self.mode, 'snappy', overwrite=overwrite,
+                          plan=plan, K=None if v.get('retry') == 'default' else self.K,
+                          uuid_start=uuid_start, **kw)
 
     def snapshot(self, cells, ref=None):
-        return F.fs_term(self.root, U.Classifier(self.root, self.df, cells, ref))
+        return F.fs_term(self.root, Classifier(self.root, self.df, cells, ref))
 
     def metadata_ref(self, tree):
         """{basename: (bytes, content term)} of the dataset's metadata files"""
@@ -208,9 +240,11 @@ class Collector:
         self.pk_cases, self.pk_metas = [], []
 
 
-def judge(rep, st, col, clean, o, label, plan_desc):
+def judge(rep, st, col, clean, o, label, plan_desc, variant=None, compare_model=True):
     """property + correspondence for one faulted run"""
     meta = {**st.meta(), 'plan': plan_desc, 'fired': [list(f) for f in o.fired], 'label': label}
+    if variant:
+        meta['call_variant'] = variant
     rep.evaluations += 1
     raised = o.raised is not None
     rep.count('raised' if raised else 'returned')
@@ -277,7 +311,10 @@ def judge(rep, st, col, clean, o, label, plan_desc):
     # ---- correspondence with the model
     asg, cfg = st.config(o)
     tt = trace_term(o.trace)
-    if tt is None:
+    if not compare_model:
+        # task re-submission is not part of Model/Retry.v: judged by the property only
+        rep.count('not-compared-with-model:variant')
+    elif tt is None:
         # a filesystem method the model has no name for: the run is judged by the property only
         rep.count('not-compared-with-model:unmodelled-call')
     else:
@@ -378,16 +415,15 @@ def find_setups(rep, root, tier):
     return out
 
 
-def run_setup(rep, st, col, tier):
-    rng = rep.rng
-    # ---- the clean run
+def clean_run(rep, st, col):
+    """the fault-free run of a setup: (clean, o), or (None, o) when it raised"""
     st.init_tree()
     f0 = F.fs_term(st.root, U.prior_classifier)
     o = st.run()
     meta = st.meta()
     if o.raised is not None:
         rep.violation('clean-run-raises', f'the fault-free run raised {o.raised!r}', meta)
-        return
+        return None, o
     asg, cfg = st.config(o)
     tree = st.snapshot(o.cells)
     nonempty = sorted({N for outs in asg for N in outs})
@@ -409,12 +445,22 @@ def run_setup(rep, st, col, tier):
     rep.nontrivial((st.name, 'clean'))
     rep.extra.setdefault('trace_lengths', {})[st.name] = L
     rep.sample({**meta, 'trace_length': L, 'assignment': asg}, cap=8)
+    return clean, o
+
+
+def run_setup(rep, st, col, tier):
+    rng = rep.rng
+    clean, o = clean_run(rep, st, col)
+    if clean is None:
+        return None, o
+    L = len(o.trace)
 
     def go(plan, label):
         st.init_tree()
         o1 = st.run(plan=plan)
         rep.nontrivial((st.name, label, json.dumps(sorted((k, str(v)) for k, v in plan.items()))))
-        return judge(rep, st, col, clean, o1, label, {str(k): v for k, v in plan.items()})
+        raised = judge(rep, st, col, clean, o1, label, {str(k): v for k, v in plan.items()})
+        return raised, len(o1.fired)
 
     # ---- always-run corpus: the recorded double fault that defeats rm_retry (C19_lie_pair_refuted,
     #      known finding fnf-rm+lying-exists): rm of an external temp directory raises
@@ -430,6 +476,7 @@ def run_setup(rep, st, col, tier):
     # existence checks of rm_retry(tmp), rm_retry(placeholder), move_retry) are part of the
     # enumeration below: every position x 'lie'
     # ---- every single position, every kind that applies to the call at that position
+    single = {}
     for pos in range(1, L + 1):
         op = o.trace[pos - 1][0]
         for kind in KINDS:
@@ -437,19 +484,53 @@ def run_setup(rep, st, col, tier):
                 continue
             if tier == 'quick' and kind == 'stale0' and op != 'find':
                 continue
-            if tier == 'quick' and kind == 'fnf' and op in ('makedirs', 'rm', 'mv', 'open_w'):
+            if tier == 'quick' and kind == 'fnf' and op in ('makedirs', 'mv', 'open_w'):
                 continue     # quick: FileNotFoundError only where a caller could tell it from OSError
-            go({pos: kind}, 'single')
-    # ---- faults that persist over r consecutive attempts of the same call (r <= K: within the
-    #      budget when the call is retried; r = K, K+1: the budget is exhausted)
+            single[(pos, kind)] = go({pos: kind}, 'single')
+    # ---- faults that persist until the retry budget is exhausted: the SAME call (same op, same
+    #      path) fails on r = K consecutive attempts, at EVERY position of the trace whose call
+    #      is retried (where one fault alone already aborted the run, the persistent fault is the
+    #      same run: skipped).  The call must raise -- and the repeat with overwrite=True must
+    #      recover from that crash point -- or leave exactly the fault-free tree; a wrapper that
+    #      gives up quietly when its budget is spent (a "best effort" clean-up, a skipped
+    #      sub-part, a compaction move that is not made) shows here and nowhere else.
+    #      Kinds: OSError at every call; FileNotFoundError at every rm (rm_retry answers it with
+    #      its existence re-check); stale listing at every ls; at the mutating calls
+    #      raise-after-partial-effect and raise-after-complete-effect (quick: one of the two per
+    #      position, drawn from rep.rng; thorough: both, and r = K + 1 as well).
+    def retried(pos, kind):
+        got = single.get((pos, kind))
+        return got is None or not (got[0] and got[1] == 1)
+
+    for pos in range(1, L + 1):
+        op = o.trace[pos - 1][0]
+        kinds = ['oserr']
+        if op == 'rm':
+            kinds.append('fnf')
+        if op == 'ls':
+            kinds.append('stale')
+        eff = [k for k in ('partial', 'after') if applicable(k, op)]
+        if eff:
+            kinds += eff if tier != 'quick' else [rng.choice(eff)]
+        for kind in kinds:
+            if not retried(pos, kind):
+                rep.count('exhaust-skipped:single-fault-already-aborts')
+                continue
+            for r in ((st.K,) if tier == 'quick' else (st.K, st.K + 1)):
+                raised, nfired = go({pos: (kind, r)}, f'exhaust{r}')
+                rep.count(f'exhaust:{kind}:{op}:' + ('raised' if raised else 'returned'))
+                if nfired < min(r, st.K) and kind != 'after':
+                    rep.count('exhaust:call-not-repeated-K-times')
+    # ---- faults that persist over r < K attempts (within the budget) on a seeded sample
     positions = list(range(1, L + 1))
     sample = rng.sample(positions, min(len(positions), 8 if tier == 'quick' else 25))
     for pos in sample:
         op = o.trace[pos - 1][0]
         kinds = [k for k in ('oserr', 'after', 'partial', 'lie', 'stale') if applicable(k, op)]
         kind = rng.choice(kinds)
-        for r in (2, st.K, st.K + 1) if tier != 'quick' else (rng.choice([2, st.K - 1]), st.K):
-            go({pos: (kind, r)}, f'repeat{r}')
+        for r in sorted({2, st.K - 1}) + ([st.K] if kind in ('lie',) else []):
+            if r >= 2:
+                go({pos: (kind, r)}, f'repeat{r}')
     # ---- pairs
     for _ in range(20 if tier == 'quick' else 120):
         p1, p2 = sorted(rng.sample(positions, 2))
@@ -458,6 +539,201 @@ def run_setup(rep, st, col, tier):
             op = o.trace[p - 1][0]
             plan[p] = rng.choice([k for k in ('oserr', 'fnf', 'after', 'partial', 'lie', 'stale') if applicable(k, op)])
         go(plan, 'pair')
+    return clean, o
+
+
+# ---------------------------------------------------------------------------------------
+# configurations of the call other than "RecFS instance + explicit _retry_args + synchronous
+# scheduler + the same uuid in the repeat"
+# ---------------------------------------------------------------------------------------
+def go_variant(rep, st, col, clean, plan, label, variant, compare_model=True):
+    st.init_tree()
+    o1 = st.run(plan=plan, variant=variant)
+    rep.nontrivial((st.name, label, json.dumps(variant, sort_keys=True),
+                    json.dumps(sorted((k, str(v)) for k, v in plan.items()))))
+    rep.count(f'variant:{label}')
+    raised = judge(rep, st, col, clean, o1, label, {str(k): v for k, v in plan.items()}, variant=variant,
+                   compare_model=compare_model)
+    return raised, o1
+
+
+def positions_of(trace, pred):
+    return [j + 1 for j, t in enumerate(trace) if pred(t)]
+
+
+def run_variants(rep, st, col, clean, o, tier):
+    """on one setup whose fault-free run `o` / `clean` is known"""
+    rng = rep.rng
+    tr = o.trace
+    rx_tmp = U.tmp_dir_rx(st.mode)
+    rm_tmp = positions_of(tr, lambda t: t[0] == 'rm' and rx_tmp.match(t[1]))
+    ls_pos = positions_of(tr, lambda t: t[0] == 'ls')
+    w_part = positions_of(tr, lambda t: t[0] == 'open_w' and RX_PART.match(t[1]))
+    w_sub = positions_of(tr, lambda t: t[0] == 'open_w' and re.match(r'^part\d+\.parquet$', t[1].split('/')[-1]))
+    final_start = clean['final_start']
+    retried = [p for p in range(1, final_start + 1)]
+    # ---- (1) the library's default retry arguments (no _retry_args): fault-free, and one
+    #      transient fault at a retried call (the default budget must retry it; first wait 0.2 s)
+    v = {'retry': 'default'}
+    raised, _ = go_variant(rep, st, col, clean, {}, 'default-retry', v)
+    if raised:
+        rep.violation('clean-run-raises:default-retry', 'the fault-free run without _retry_args raised', st.meta())
+    if rm_tmp:
+        raised, _ = go_variant(rep, st, col, clean, {rm_tmp[0]: 'oserr'}, 'default-retry', v)
+        if raised:
+            rep.violation('default-retry-does-not-retry', 'one transient OSError at the removal of a temp '
+                          'directory aborts the call made without _retry_args (default budget: 24 attempts)',
+                          {**st.meta(), 'plan': {str(rm_tmp[0]): 'oserr'}, 'call_variant': v, 'label': 'default-retry'})
+    # ---- (2) a filesystem whose ls has a `refresh` parameter and a listing cache (s3fs-like)
+    v = {'fs': 'refresh'}
+    raised, o1 = go_variant(rep, st, col, clean, {}, 'refresh-fs', v)
+    if raised:
+        rep.violation('clean-run-raises:refresh-fs', 'the fault-free run on a filesystem with ls(refresh=...) and '
+                      f'a listing cache raised {o1.raised!r}'[:300], {**st.meta(), 'plan': {}, 'call_variant': v, 'label': 'refresh-fs'})
+    rep.count('refresh-fs:ls-called-with-refresh=True', int(True in o1.fs.refresh_seen))
+    rep.count('refresh-fs:listings-served-from-cache', o1.fs.cache_hits)
+    for pos in ls_pos:
+        for f in ('stale', 'oserr', ('stale', st.K)):
+            go_variant(rep, st, col, clean, {pos: f}, 'refresh-fs', v)
+    for pos in w_sub[:1]:
+        go_variant(rep, st, col, clean, {pos: 'partial'}, 'refresh-fs', v)
+    # ---- (3) a scheduler that re-submits a task that raised (distributed's retries=1): a task
+    #      whose wrapper spent its budget runs again over what its first run left -- for
+    #      concat_parts after the part file was written and the temp directory removed, this is
+    #      the "work has already been done" shortcut of read_parquet_retry.  Not in the model:
+    #      judged by the property (raised, or exactly the fault-free tree and rows).
+    v = {'scheduler': 'resubmit'}
+    go_variant(rep, st, col, clean, {}, 'resubmit', v, compare_model=False)
+    plans = [{p: ('after', st.K)} for p in w_part]
+    plans += [{p: ('oserr', st.K)} for p in (rm_tmp if tier != 'quick' else rm_tmp[:2])]
+    plans += [{p: ('partial', st.K)} for p in w_sub[:1] + w_part[:1]]
+    plans += [{p: ('oserr', st.K)} for p in rng.sample(retried, 3 if tier == 'quick' else 12)]
+    for plan in plans:
+        raised, o1 = go_variant(rep, st, col, clean, plan, 'resubmit', v, compare_model=False)
+        rep.count('resubmit:tasks-resubmitted', o1.resubmitted)
+        rep.count('resubmit:' + ('raised' if raised else 'returned'))
+
+
+def run_fs_argument(rep, st, clean):
+    """(4) the filesystem given as a protocol string with storage_options, and an invalid value"""
+    v = {'filesystem': 'file', 'storage_options': {'auto_mkdir': False}}
+    meta = {**st.meta(), 'kind': 'fs-argument', 'call_variant': v}
+    st.init_tree()
+    o1 = st.run(variant=v)
+    rep.evaluations += 1
+    rep.nontrivial((st.name, 'fs-string'))
+    rep.count('variant:fs-string')
+    if o1.raised is not None:
+        rep.violation('clean-run-raises:fs-string', "the fault-free run with filesystem='file' and storage_options "
+                      f'raised {o1.raised!r}'[:300], meta)
+    else:
+        tree = st.snapshot(clean['cells'], clean['ref'])
+        if norm_tree(tree) != clean['norm']:
+            rep.violation('fs-string-different-tree', "filesystem='file' + storage_options leaves a tree different "
+                          'from the one the same call leaves with a filesystem instance', meta)
+        if U.row_key(o1.frame.compute()) != st.want_rows:
+            rep.violation('fs-string-rows', "filesystem='file': the returned frame does not hold the input rows", meta)
+    for bad in ('no-such-protocol-c19', 12345):
+        v = {'filesystem': bad}
+        meta = {**st.meta(), 'kind': 'fs-argument', 'call_variant': v}
+        st.init_tree()
+        before = norm_tree(F.fs_term(st.root, U.prior_classifier))
+        o1 = st.run(variant=v)
+        rep.evaluations += 1
+        rep.nontrivial((st.name, 'fs-invalid', repr(bad)))
+        rep.count('variant:fs-invalid')
+        after = norm_tree(F.fs_term(st.root, U.prior_classifier))
+        if o1.raised is None:
+            rep.violation('invalid-filesystem-accepted', f'filesystem={bad!r} did not raise', meta)
+        elif not isinstance(o1.raised, ValueError):
+            rep.violation('invalid-filesystem-error-class', f'filesystem={bad!r} raised '
+                          f'{type(o1.raised).__name__}, not the ValueError the argument check gives', meta)
+        if before != after:
+            rep.violation('invalid-filesystem-touches-tree', f'filesystem={bad!r}: the tree was changed', meta)
+
+
+FRESH = 1000      # the uuid4 counter of a repeat that draws a fresh uuid
+
+
+def _under(entry, prefix):
+    return [C.jsonable(c) for c in entry[0][:len(prefix)]] == prefix
+
+
+def check_fresh_uuid(rep, st, col, clean, plan, label='fresh-uuid'):
+    """an aborted run, then the repeat with overwrite=True under a FRESH uuid (the real library
+    draws uuid4 per call; c10_util.deterministic_uuid restarts per call).  Promised
+    (C19_recover_fresh_tmp): the repeat returns, the dataset path holds exactly the fault-free
+    dataset, the repeat's own temp directories hold no leftovers; Model/PackFS.v run on the
+    aborted tree predicts the whole tree.  What the aborted run left under tmp/<old uuid>/
+    stays (C19_recover_uuid_debris_refuted): counted, not a violation."""
+    meta = {**st.meta(), 'kind': 'fresh-uuid', 'plan': {str(k): v for k, v in plan.items()}, 'label': label}
+    st.init_tree()
+    o1 = st.run(plan=plan)
+    rep.evaluations += 1
+    rep.nontrivial((st.name, label, json.dumps(sorted((k, str(v)) for k, v in plan.items()))))
+    meta['fired'] = [list(f) for f in o1.fired]
+    if o1.raised is None:
+        rep.count('fresh-uuid:first-run-returned')
+        return judge(rep, st, col, clean, o1, label, meta['plan'])
+    tree_ab = st.snapshot(clean['cells'], clean['ref'])
+    o2 = st.run(plan=None, overwrite=True, uuid_start=FRESH)
+    rep.count('fresh-uuid:recover-runs')
+    if o2.raised is not None:
+        rep.violation('recover-raises:fresh-uuid', 'after an aborted run the repeat with overwrite=True (fresh '
+                      f'uuid) raised {type(o2.raised).__name__}: {str(o2.raised)[:200]}', meta)
+        return True
+    tree2 = st.snapshot(clean['cells'], clean['ref'])
+    old_p = [C.jsonable(c) for c in F.path_term('tmp/' + U.UUID1)]
+    new_p = [C.jsonable(c) for c in F.path_term('tmp/' + V.uuid_of(FRESH))]
+    tmp_p = [C.jsonable(c) for c in F.path_term('tmp')]
+    if norm_tree(ds_only(tree2)) != norm_tree(ds_only(clean['tree'])):
+        rep.violation('recover-differs:fresh-uuid', 'after an aborted run the repeat with overwrite=True (fresh uuid) '
+                      'left a dataset different from the fault-free one', meta)
+    if U.row_key(o2.frame.compute()) != st.want_rows:
+        rep.violation('recover-rows:fresh-uuid', 'the repeat (fresh uuid) does not return the input rows', meta)
+    # the repeat's own temp directories: what the fault-free run leaves in its own (renamed)
+    mine = [(e[0][len(new_p):], e[1]) for e in tree2 if _under(e, new_p)]
+    ref = [(e[0][len(old_p):], e[1]) for e in clean['tree'] if _under(e, old_p)]
+    if norm_tree(mine) != norm_tree(ref):
+        rep.violation('recover-leaves-tempfiles:fresh-uuid', 'the repeat (fresh uuid) returned but left entries in its '
+                      'own temp directories', {**meta, 'left': [C.jsonable(e) for e in mine][:10]})
+    # nothing outside the dataset and the temp parent is touched by the repeat
+    out2 = [e for e in tree2 if not _under(e, tmp_p) and e not in ds_only(tree2)]
+    out1 = [e for e in tree_ab if not _under(e, tmp_p) and e not in ds_only(tree_ab)]
+    if norm_tree(out2) != norm_tree(out1):
+        rep.violation('recover-touches-unrelated:fresh-uuid', 'the repeat changed entries outside the dataset and '
+                      'the temp parent', meta)
+    # measured extra: debris of the aborted run under the OLD uuid
+    debris = [e for e in tree2 if _under(e, old_p) and e[1].ctor == 'File']
+    rep.count('fresh-uuid:repeat-leaves-old-tempdir-files', int(bool(debris)))
+    rep.count('fresh-uuid:old-tempdir-files-left', len(debris))
+    # the model on the aborted tree with the new temp parent predicts the whole tree; the old
+    # uuid's directory, which neither the model nor the promise speaks about, is left out on
+    # both sides (a library that removed that debris as well would not be an alarm)
+    nin = len(st.cuts) - 1
+    asg2, iorder = V.assignment_of(o2, nin, o2.tmp_parent)
+    corder = V.concat_order(o2, st.k, o2.tmp_parent)
+    cfg2 = U.config_term(st.k, st.mode, o2.tmp_parent, True, iorder, corder)
+    col.pk_cases.append(([e for e in tree_ab if not _under(e, old_p)], cfg2, U.asg_term(asg2),
+                         [e for e in tree2 if not _under(e, old_p)], clean['parts']))
+    col.pk_metas.append({**meta, 'phase': 'recover-fresh-uuid'})
+    return True
+
+
+def run_fresh_uuid(rep, root, col, tier):
+    st = Setup(rep, root, 'M-uuid', 5, 'dup', [0, 2, 5], 4, 'uuid', 3)
+    clean, o = clean_run(rep, st, col)
+    if clean is None:
+        return
+    rng = rep.rng
+    fs_ = clean['final_start']
+    w_sub = positions_of(o.trace, lambda t: t[0] == 'open_w' and re.match(r'^part\d+\.parquet$', t[1].split('/')[-1]))
+    rm_tmp = positions_of(o.trace, lambda t: t[0] == 'rm' and U.tmp_dir_rx('uuid').match(t[1]))
+    plans = [{p: ('partial', st.K)} for p in w_sub[-1:]] + [{p: ('partial', st.K)} for p in rm_tmp[:1]]
+    plans += [{p: ('oserr', st.K)} for p in (rng.sample(range(1, fs_ + 1), 5) if tier == 'quick' else range(1, fs_ + 1))]
+    plans += [{min(len(o.trace), fs_ + 3): 'oserr'}]
+    for plan in plans:
+        check_fresh_uuid(rep, st, col, clean, plan)
 
 
 def run(rep):
@@ -471,14 +747,26 @@ def run(rep):
                 'dataset with overwrite=True; retry budget K attempts, no waiting.  Faults: every position of '
                 'the recorded call trace x every kind applicable to the call there (OSError before, '
                 'FileNotFoundError before, OSError after the effect, OSError after a partial effect, stale '
-                'listing, lying exists/isfile/isdir), persistent faults over r attempts (within / beyond the '
-                'budget), seeded pairs.  distinct non-trivial = distinct (setup, fault plan)')
+                'listing, lying exists/isfile/isdir); at EVERY position whose call is retried a fault that '
+                'persists until the budget is exhausted (r = K attempts of the same call; OSError everywhere, '
+                'FileNotFoundError at rm, stale at ls, partial / after effects at the mutating calls; thorough '
+                'also r = K+1), each followed by the recovery check from that crash point; persistent faults '
+                'within the budget on a seeded sample; seeded pairs.  Other configurations of the call (setup '
+                'M): no _retry_args (library default), a filesystem with ls(refresh=) and a listing cache, a '
+                'scheduler that re-submits a failed task (reaches the already-done shortcut), filesystem given '
+                'as a protocol string + storage_options / an invalid value, {uuid} temp directories with a '
+                'repeat that draws a FRESH uuid.  distinct non-trivial = distinct (setup, configuration, fault plan)')
     root = U.scratch()
     col = Collector()
     try:
         with dask.config.set(scheduler='synchronous'):
             for st in find_setups(rep, root, tier):
-                run_setup(rep, st, col, tier)
+                clean, o = run_setup(rep, st, col, tier)
+                if clean is not None and st.name in ('M-inside', 'M-flat'):
+                    run_variants(rep, st, col, clean, o, tier)
+                    if st.name == 'M-flat':
+                        run_fs_argument(rep, st, clean)
+            run_fresh_uuid(rep, root, col, tier)
     finally:
         shutil.rmtree(root, ignore_errors=True)
     import time
@@ -486,13 +774,22 @@ def run(rep):
     model_verdicts(rep, col)
     rep.extra['seconds_real_runs'] = round(t_runs, 1)
     rep.extra['seconds_model_eval'] = round(time.time() - rep.t0 - t_runs, 1)
-    bad = C.coq_mismatches(U.PK_IMPORTS, 'pack_check', PK_CASE_TY, PK_RES_TY, col.pk_cases,
-                           [C.Some((True, True, True))] * len(col.pk_cases), shard=40)
-    for i in bad[:3]:
-        rep.violation('recover-model-differs', 'the repeat after an aborted run differs from Model/PackFS.v run '
-                      'on the aborted tree', col.pk_metas[i])
+    recover_verdicts(rep, col)
     rep.extra['model_cases'] = len(col.cases)
     rep.extra['recover_cases'] = len(col.pk_cases)
+
+
+def recover_verdicts(rep, col):
+    bad = C.coq_mismatches(U.PK_IMPORTS, 'pack_check', PK_CASE_TY, PK_RES_TY, col.pk_cases,
+                           [C.Some((True, True, True))] * len(col.pk_cases), shard=40)
+    seen = set()
+    for i in bad:
+        m = col.pk_metas[i]
+        sig = 'recover-model-differs' + (':fresh-uuid' if m.get('phase') == 'recover-fresh-uuid' else '')
+        if sig in seen:
+            continue
+        seen.add(sig)
+        rep.violation(sig, 'the repeat after an aborted run differs from Model/PackFS.v run on the aborted tree', m)
 
 
 def replay(rep, rp):
@@ -502,26 +799,27 @@ def replay(rep, rp):
     try:
         with dask.config.set(scheduler='synchronous'):
             st = Setup(rep, root, rp['setup'], rp['n'], rp['variant'], rp['cuts'], rp['k'], rp['mode'], rp['K'])
-            st.init_tree()
-            f0 = F.fs_term(st.root, U.prior_classifier)
-            o = st.run()
-            asg, cfg = st.config(o)
-            tree = st.snapshot(o.cells)
-            cl = U.Classifier(st.root, st.df, o.cells)
-            parts = [F.cells_term(pc[0]) for _, pc in cl.dataset_parts(os.path.join(st.root, U.DS))]
-            final_start = max([j for j, t in enumerate(o.trace) if t[0] == 'exists' and t[1] == U.DS], default=len(o.trace))
-            clean = {'f0': f0, 'tree': tree, 'norm': norm_tree(tree), 'cells': dict(o.cells), 'trace': o.trace,
-                     'final_start': final_start, 'parts': parts, 'ref': st.metadata_ref(tree)}
+            clean, o = clean_run(rep, st, col)
             plan = {}
             for k, v in (rp.get('plan') or {}).items() if isinstance(rp.get('plan'), dict) else []:
                 plan[int(k)] = tuple(v) if isinstance(v, list) else v
-            st.init_tree()
-            o1 = st.run(plan=plan)
-            print('fired:', o1.fired, 'raised:', repr(o1.raised)[:200])
-            judge(rep, st, col, clean, o1, 'replay', rp.get('plan'))
+            cv = rp.get('call_variant')
+            if clean is None:
+                pass
+            elif rp.get('kind') == 'fs-argument':
+                run_fs_argument(rep, st, clean)
+            elif rp.get('kind') == 'fresh-uuid':
+                check_fresh_uuid(rep, st, col, clean, plan, 'replay')
+            else:
+                st.init_tree()
+                o1 = st.run(plan=plan, variant=cv)
+                print('fired:', o1.fired, 'raised:', repr(o1.raised)[:200])
+                judge(rep, st, col, clean, o1, 'replay', rp.get('plan'), variant=cv,
+                      compare_model=not (cv or {}).get('scheduler'))
     finally:
         shutil.rmtree(root, ignore_errors=True)
     model_verdicts(rep, col)
+    recover_verdicts(rep, col)
     for v in rep.violations:
         print(v['signature'], '-', v['what'])
     print('counts:', {k: v for k, v in rep.hist.items() if 'differs' in k or 'compared' in k})
